@@ -37,6 +37,10 @@ const (
 )
 
 var (
+	Stderr = os.Stderr
+	Stdout = os.Stdout
+	Stdin  = os.Stdin
+
 	ErrNotExist = fs.ErrNotExist
 	ErrExist    = fs.ErrExist
 	errDead     = errors.New("vfs: process is dead")
